@@ -24,6 +24,9 @@ class Path:
         return 'Path(raise %s: %s)' % (self.exc.__name__, self.why)
 
 
+UNSUPPORTED_PATHS = 40       # a unit with more paths outside the subset than this is given up
+
+
 class Exploration:
     def __init__(self):
         self.paths = []
@@ -33,10 +36,11 @@ class Exploration:
         self.unknowns = 0
         self.restarts = 0
         self.secs = 0.0
+        self.unsupported = []       # reasons of the paths that left the subset
 
 
 def explore(fn, make_args, cur_n, budget=600, time_limit=120.0, long_bound=LONG_BOUND, base=None, kwargs=None,
-            interp_cls=Interp, force_primary=None, setup=None, on_path=None):
+            interp_cls=Interp, force_primary=None, setup=None, on_path=None, on_restart=None):
     """all paths of fn(*make_args(ctx), **kwargs).  fn: Func.  make_args(ctx) -> list of argument values.
     base: a Ctx to clone for every path (nested exploration under an existing path condition)."""
     ex = Exploration()
@@ -92,16 +96,21 @@ def explore(fn, make_args, cur_n, budget=600, time_limit=120.0, long_bound=LONG_
                 ex.status = 'unsupported: conflicting normalisations of the input'
                 break
             if on_path is not None and getattr(ex, 'npaths', 0):
-                ex.status = 'unsupported: conflicting normalisations of the input (met after some paths were reported)'
-                break
+                if on_restart is None:
+                    ex.status = 'unsupported: conflicting normalisations of the input (met after some paths were reported)'
+                    break
+                on_restart()          # the paths reported so far are explored again under the refined input: the consumer resets its counters
             ex2 = explore(fn, make_args, cur_n, budget, max(1.0, time_limit - (time.time() - t0)), long_bound, base, kwargs,
-                          interp_cls, r.primary if force_primary is None else force_primary.meet(r.primary), setup, on_path)
+                          interp_cls, r.primary if force_primary is None else force_primary.meet(r.primary), setup, on_path, on_restart)
             ex2.restarts += 1 + ex.restarts
             ex2.secs = time.time() - t0
             return ex2
         except Unsupported as u:
-            ex.status = 'unsupported: ' + str(u)
-            break
+            # this path leaves the subset: the unit stays undecided, but the other paths are still explored (what they
+            # refute is reported; nothing is claimed proved for the unit)
+            ex.unsupported.append(str(u))
+            if len(ex.unsupported) > UNSUPPORTED_PATHS:
+                break
         except z3.Z3Exception as e:
             ex.status = 'unsupported: z3 term error %s' % str(e)[:80]
             break
@@ -112,6 +121,8 @@ def explore(fn, make_args, cur_n, budget=600, time_limit=120.0, long_bound=LONG_
         ex.checks += ctx.checks
         ex.fast += ctx.fast
         ex.unknowns += ctx.unknowns
+    if ex.unsupported and ex.status == 'ok':
+        ex.status = 'unsupported: ' + ex.unsupported[0]
     ex.secs = time.time() - t0
     return ex
 
